@@ -488,10 +488,12 @@ void rfbMakeRichCursorFromXCursor(rfbScreenInfoPtr rfbScreen,rfbCursorPtr cursor
       fore+=4-bpp;
    }
 
-   background=(uint32_t)cursor->backRed<<format->redShift|
-     (uint32_t)cursor->backGreen<<format->greenShift|(uint32_t)cursor->backBlue<<format->blueShift;
-   foreground=(uint32_t)cursor->foreRed<<format->redShift|
-     (uint32_t)cursor->foreGreen<<format->greenShift|(uint32_t)cursor->foreBlue<<format->blueShift;
+   background=((uint32_t)format->redMax*cursor->backRed/0xffff)<<format->redShift|
+     ((uint32_t)format->greenMax*cursor->backGreen/0xffff)<<format->greenShift|
+     ((uint32_t)format->blueMax*cursor->backBlue/0xffff)<<format->blueShift;
+   foreground=((uint32_t)format->redMax*cursor->foreRed/0xffff)<<format->redShift|
+     ((uint32_t)format->greenMax*cursor->foreGreen/0xffff)<<format->greenShift|
+     ((uint32_t)format->blueMax*cursor->foreBlue/0xffff)<<format->blueShift;
    
    for(j=0;j<cursor->height;j++)
      for(i=0,bit=0x80;i<cursor->width;i++,bit=(bit&1)?0x80:bit>>1,cp+=bpp)
